@@ -27,7 +27,7 @@ def generate(seed, mode="c18", opts=None):
     elaborated = False
     for i in range(n):
         k = ch.weighted(
-            [(10, "set"), (4, "add"), (3, "add_named"), (3, "get"), (2, "reset"), (1, "readd"), (1, "banned"), (1, "badval"), (1, "del"), (1, "subclass"), (1 if target == "module" and not elaborated and i > 2 else 0, "elaborate"), (1, "add_anon"), (1, "add_conflict")],
+            [(10, "set"), (4, "add"), (3, "add_named"), (3, "get"), (2, "reset"), (1, "readd"), (1, "banned"), (1, "badval"), (1, "del"), (1, "subclass"), (1 if target == "module" and not elaborated and i > 2 else 0, "elaborate"), (1, "add_anon"), (1, "add_conflict"), (1, "alias")],
             "opkind",
         )
         name = ch.pick(NAMES, "name")
@@ -59,6 +59,10 @@ def generate(seed, mode="c18", opts=None):
             ops.append(["add_anon", kind, width])
         elif k == "add_conflict":
             ops.append(["add_conflict", name, ch.pick(NAMES, "n2"), kind, width])
+        elif k == "alias":
+            # a member is assigned to a second name that must be refused (a reserved one; any, once
+            # elaborated): the refusal leaves the member as it was, its name included
+            ops.append(["alias", name, ch.pick(banned if not elaborated else banned + NAMES, "aname")])
         elif k == "elaborate":
             # (half of the time the first attempt is made together with a nameless module, which the
             # last pass refuses - after it has been through the edited module)
@@ -147,6 +151,31 @@ def check_state(h, obj, model, target):
     for nm in NAMES + ["zz"]:
         if nm not in model and obj.get(nm) is not None:
             return f"get({nm!r}) returns something for an unknown name"
+    return None
+
+
+def check_agreement(obj, target, names):
+    """Model-free (used once elaboration has rewritten the module): for every name, get(),
+    attribute access and the views say the same thing."""
+    views = sorted(set((VIEW_OF if target == "module" else BVIEW_OF).values()))
+    cands = set(names) | set(obj.namespace.keys())
+    for v in views:
+        cands |= set(getattr(obj, v).keys())
+    for n in sorted(cands):
+        g = obj.get(n)
+        try:
+            a = getattr(obj, n)
+        except AttributeError:
+            a = None
+        held = [(v, getattr(obj, v)[n]) for v in views if n in getattr(obj, v)]
+        if g is None:
+            if a is not None or held:
+                return f"{n!r}: get() returns nothing, attribute access gives {a!r}, views holding it: {[v for v, _ in held]}"
+        else:
+            if a is not g:
+                return f"{n!r}: get() returns {g!r}, attribute access {'raises' if a is None else 'gives another object'}"
+            if len(held) != 1 or held[0][1] is not g:
+                return f"{n!r}: get() returns {g!r}; views holding the name: {[v for v, _ in held]}"
     return None
 
 
@@ -244,6 +273,11 @@ def execute(scn):
                 h.elaborate(obj)
                 elaborated = True
                 probe("elaborated_mid_history")
+                bad = check_agreement(obj, target, list(model) + NAMES)
+                if bad:
+                    fail("views", f"after op {k} {op} (the module has been elaborated): {bad}")
+                    break
+                probe("state_checks_after_elaboration")
                 continue
             elif kind == "banned":
                 via = op[4] if len(op) > 4 else "set"
@@ -256,6 +290,23 @@ def execute(scn):
                 else:
                     obj.add(val, name=op[1])
                 fail("banned-accepted", f"op {k}: reserved name {op[1]!r} was accepted ({via})")
+            elif kind == "alias":
+                if op[1] not in model or op[1] == op[2]:
+                    continue
+                cur = model[op[1]][1]
+                try:
+                    setattr(obj, op[2], cur)
+                except Exception:  # noqa
+                    probe("rejected:alias")
+                    if cur.name != op[1]:
+                        fail("rejected-op-changed-state", f"op {k} {op} raised, but member {op[1]!r} is now named {cur.name!r}")
+                        break
+                    if snapshot(obj, views) != before and not elaborated:
+                        fail("rejected-op-changed-state", f"op {k} {op} raised but changed the module")
+                        break
+                    continue
+                fail("accepted-after-elaboration" if elaborated else "banned-accepted", f"op {k} {op}: a member was accepted under a second name that must be refused")
+                break
             elif kind == "underscore":
                 # add() under a name that attribute access does not resolve: refused, or else coherent
                 val = make_value(h, env, op[2], op[3])
@@ -319,6 +370,12 @@ def execute(scn):
                 fail("views", f"after op {k} {op}: {bad}")
                 break
             probe("state_checks")
+        else:
+            bad = check_agreement(obj, target, list(model) + NAMES)
+            if bad:
+                fail("views", f"after op {k} {op} (the module has been elaborated): {bad}")
+                break
+            probe("state_checks_after_elaboration")
     # final: exported module == class-style definition of the model's content
     c18_clean = not res["findings"]
     if target == "module" and not elaborated:
